@@ -7,5 +7,6 @@ for id in $ids; do
   out=$(MUT_TAIL=40 tools/mutcheck.sh $prop seeded/$id/patch.diff 2>&1)
   rc=$(echo "$out" | grep -o "exit=[0-9]*" | tail -1)
   sig=$(echo "$out" | grep -o 'signature=[^ ]*' | sort | uniq -c | sort -rn | head -2 | tr '\n' ' ')
+  echo "$out" | grep -q "PATCH-DOES-NOT-APPLY" && rc="PATCH-DOES-NOT-APPLY (re-create the patch on the current tree)"
   echo "$id: $rc (exit=1 = detected) $sig"
 done
